@@ -64,9 +64,12 @@ enum CKind { C_NONE, C_FAIL, C_MIN, C_MAX, C_RANGE, C_CB };
 static const char *ckind_name[] = {"none", "fail", "min", "max", "range", "cb"};
 
 // validator callbacks: a small family of predicates on the raw image, shared by model and harness
+// The predicates may consult application state that changes while the table is live (an operating mode that moves a limit): with mode 1 every
+// callback register is governed by the next predicate of the list. Validator callbacks and model read the same switch.
+inline int &cb_mode() { static int m = 0; return m; }
 inline bool cb_pred(int id, int t, uint64_t raw) {
     (void)t;
-    switch (id) {
+    switch ((id + cb_mode()) % 3) {
     case 0: return (raw & 1) == 0;            // "even" (lowest bit of the image clear)
     case 1: return (raw & 0xff) != 0x2a;      // "low octet is not 42"
     default: return ((raw >> 3) & 1) == 0;    // "bit 3 clear"
